@@ -238,6 +238,34 @@ example : prefixMass 2 [nmFrame, nmFrame] [0] = 5/8 ∧ mass 2 [nmFrame, nmFrame
     prefixMass 2 [nmFrame, nmFrame] [0, 0] = 0 ∧ prefixMass 2 [nmFrame, nmFrame] [0, 1] = 1/8 := by
   decide +kernel
 
+/-! Audit (round e): the four theorems above APPLIED to this instance, all hypotheses together (the two
+`example`s above only evaluate the sums). -/
+
+theorem nmFrames_stoch : ∀ f ∈ [nmFrame, nmFrame], f.Stoch 2 := by
+  intro f hf
+  simp only [List.mem_cons, List.mem_nil_iff, or_false, or_self] at hf
+  subst hf; exact nmFrame_stoch
+
+-- C05_total_mass on three distinct prefixes (not all of them): 1/2 + 3/16 + 1/8 = 13/16 ≤ 1
+example : (∀ p, 0 ≤ mass 2 [nmFrame, nmFrame] p) ∧
+    ([[0], [1], [0, 1]].map (mass 2 [nmFrame, nmFrame])).sum ≤ 1 :=
+  C05_total_mass 2 [nmFrame, nmFrame] (fun f hf => (nmFrames_stoch f hf).sub) [[0], [1], [0, 1]] (by decide)
+example : ([[0], [1], [0, 1]].map (mass 2 [nmFrame, nmFrame])).sum = 13/16 := by decide +kernel
+
+-- C05_total_mass_eq: the seven prefixes cover the collapse of each of the nine alignments (`hall` by evaluation)
+example : ([[], [0], [1], [0, 1], [1, 0], [0, 0], [1, 1]].map (mass 2 [nmFrame, nmFrame])).sum = 1 :=
+  C05_total_mass_eq 2 [nmFrame, nmFrame] nmFrames_stoch _ (by decide) (by decide +kernel)
+
+-- C05_prefix_mass: the right-hand side (sum over the nine alignments whose collapse starts with `[0]`) is 5/8
+example := C05_prefix_mass 2 [nmFrame, nmFrame] [0]
+example : ((allAlign 2 2).map (fun a =>
+    if ([0] : List Nat).isPrefixOf (collapse 2 a) then (runAlign 2 [nmFrame, nmFrame] a).w else 0)).sum = 5/8 := by
+  decide +kernel
+
+-- C05_prefix_split: both conditional parts with their premises discharged
+example := (C05_prefix_split 2 [nmFrame, nmFrame] [0]).2.1 (fun f hf => (nmFrames_stoch f hf).nonneg)
+example := (C05_prefix_split 2 [nmFrame, nmFrame] [0]).2.2 (fun f hf => (nmFrames_stoch f hf).sub)
+
 /-- The limits of the normalisation theorem: the VALID-MIXTURE fusion formula of the module
 (`(1-β)·tok + β·lm·(1-blank)`, here `β = 1` and a language model that forbids repeating token 0) does not
 give sub-stochastic frames — after reading token 0 the outgoing weight is `blank + tok 0 + ext [0] 1 = 3/2`,
@@ -1041,23 +1069,27 @@ example := Ctc.C05_exact_unpruned 2 [auSpec] _ auOne_unpruned [1]
 under the hypotheses of `C05_module` (any element length, any padding) the probabilities of the slots that
 hold a prefix (`-inf` slots count nothing) are non-negative and add up to at most the total weight of all
 alignments; with sub-stochastic frames — in particular the softmax frames of a search without language
-model — to at most ONE: the module never reports more probability than there is, also in aggregate. -/
+model — to at most ONE: the module never reports more probability than there is, also in aggregate.
+`reportedTotal` counts every entry that is not a number as 0 (`XR.val`); the last two conjuncts (audit,
+round e) say that this hides nothing: there are exactly `width` entries and each is a number or `-inf`,
+never NaN / `+inf`. -/
 theorem C05_reported_total {V : Nat} (hV : 0 < V) (width : Nat) (hw : 0 < width) (own extra : List FrameIn)
     (fs : List Ctc.Frame) (hg : GoodRun V width initState own fs) (hss : ∀ f ∈ fs, f.SubStoch V) :
     0 ≤ reportedTotal (search true V width own.length (own ++ extra)).1 ∧
-    reportedTotal (search true V width own.length (own ++ extra)).1 ≤ 1 := by
+    reportedTotal (search true V width own.length (own ++ extra)).1 ≤ 1 ∧
+    (search true V width own.length (own ++ extra)).1.probs.length = width ∧
+    ∀ x ∈ (search true V width own.length (own ++ extra)).1.probs, (∃ q, x = XR.fin q) ∨ x = XR.negInf := by
   have hnn : ∀ f ∈ fs, f.Nonneg := fun f h => (hss f h).nonneg
-  have h := reportedTotal_bounds (C05_module hV width hw own extra fs hg hnn) hnn
-  exact ⟨h.1, le_trans h.2 (Ctc.totalW_le_one V fs hss)⟩
+  have hm := C05_module hV width hw own extra fs hg hnn
+  have h := reportedTotal_bounds hm hnn
+  exact ⟨h.1, le_trans h.2 (Ctc.totalW_le_one V fs hss), hm.count, hm.clean⟩
 
 /-! Non-vacuity: the audit's three-frame run (V = 2, width 3, merges and pruning); its frames are stochastic -/
 theorem auSpec_stoch : auSpec.Stoch 2 := by
   refine Ctc.stoch_plain ⟨by decide +kernel, fun v => ?_, fun _ v => ?_⟩ (fun _ _ => rfl) (by decide +kernel)
   all_goals (simp only [auSpec]; split <;> decide +kernel)
 
-example : 0 ≤ reportedTotal (search true 2 3 auFrames3.length (auFrames3 ++ [])).1 ∧
-    reportedTotal (search true 2 3 auFrames3.length (auFrames3 ++ [])).1 ≤ 1 :=
-  C05_reported_total (by decide) 3 (by decide) auFrames3 [] [auSpec, auSpec, auSpec] auFrames3_good
+example := C05_reported_total (V := 2) (by decide) 3 (by decide) auFrames3 [] [auSpec, auSpec, auSpec] auFrames3_good
     (fun f hf => by
       simp only [List.mem_cons, List.mem_nil_iff, or_false, or_self] at hf
       subst hf
@@ -1065,5 +1097,42 @@ example : 0 ≤ reportedTotal (search true 2 3 auFrames3.length (auFrames3 ++ []
 
 /-- … strictly less than one here: four of seven candidate prefixes were pruned on the way -/
 example : reportedTotal (search true 2 3 3 auFrames3).1 = 19/32 := by decide +kernel
+
+/-! Audit (round e): `C05_reported_total` on a FUSED run. The harness applies the aggregate bound
+(`C05.exact.total`) to plain-fusion cases as well, on the ground that an LM factor `exp(β·log_softmax) ≤ 1`
+keeps the frames sub-stochastic; that step is `Ctc.subStoch_of_ext_le`. Instance: the history-dependent
+plain-fusion run `auIns` (V = 2, width 3, a state routed through `in_next`), `GoodRun` from `C05_lm_plumbing`. -/
+
+theorem auLmSpec_nonneg : auLmSpec.Nonneg := by
+  refine ⟨by decide +kernel, fun v => ?_, fun q v => ?_⟩
+  · show (0 : Rat) ≤ if v = 0 then 1/2 else 1/4
+    split <;> decide +kernel
+  · show (0 : Rat) ≤ auF q v * (if v = 0 then 1/2 else 1/4)
+    have h1 : (0 : Rat) ≤ auF q v := by unfold auF; split <;> decide +kernel
+    have h2 : (0 : Rat) ≤ (if v = 0 then 1/2 else 1/4) := by split <;> decide +kernel
+    exact Rat.mul_nonneg h1 h2
+
+theorem auLmSpec_sub : auLmSpec.SubStoch 2 := by
+  refine Ctc.subStoch_of_ext_le auLmSpec_nonneg (fun q v => ?_) (by decide +kernel)
+  show auF q v * (if v = 0 then 1/2 else 1/4) ≤ (if v = 0 then (1/2 : Rat) else 1/4)
+  have h1 : auF q v ≤ 1 := by unfold auF; split <;> decide +kernel
+  have h2 : (0 : Rat) ≤ (if v = 0 then 1/2 else 1/4) := by split <;> decide +kernel
+  calc auF q v * (if v = 0 then 1/2 else 1/4) ≤ 1 * (if v = 0 then 1/2 else 1/4) :=
+        mul_le_mul_of_nonneg_right h1 h2
+    _ = _ := one_mul _
+
+/-- the fused frame is NOT stochastic (after reading token 0 the outgoing weight is 1/4 + 1/2 + 1/4 = 1, but
+after the prefix `[0]` and a blank it is 1/4 + 1/16 + 1/4 = 9/16): the bound is used in its `≤` form -/
+example : Ctc.outW 2 auLmSpec [0] (some 2) = 9/16 := by decide +kernel
+
+example := C05_reported_total (V := 2) (by decide) 3 (by decide)
+  (lmFrames 2 3 none (histLM 2 auF) [] (initState, [[]]) auIns) [] [auLmSpec, auLmSpec]
+  (C05_lm_plumbing (V := 2) (by decide) 3 none [] [] (histLM_ok 2 auF) rfl auIns [auLmSpec, auLmSpec] auIns_good)
+  (fun f hf => by
+    simp only [List.mem_cons, List.mem_nil_iff, or_false, or_self] at hf
+    subst hf; exact auLmSpec_sub)
+
+example : reportedTotal (search true 2 3 2 (lmFrames 2 3 none (histLM 2 auF) [] (initState, [[]]) auIns)).1 = 13/16 := by
+  decide +kernel
 
 end PdtVerif.CtcPrefix
